@@ -1596,7 +1596,9 @@ def run(ctx):
                 "and re-run, harness-side fault injection incl. a kill inside json.dump and an unserialisable info value -- beside healthy fits, "
                 "grid searches with 2 or 4 cells, real search classes, copied folders; one grid search per likelihood profile of its cells in every run: "
                 "best cell exactly 0.0 above negatives / above -inf, 0.0 below a positive, all positive, mixed signs, ties at 0.0 and elsewhere, "
-                "-inf in some / all cells, last cell without samples) written by the "
+                "-inf in some / all cells, last cell without samples; unusual but legal values in every run: unique_tag '' (falsy, not None) "
+                "with / without prefix and under a grid search, name '', prefix '' / dotted / deep, tag = name = prefix, tags 'None' '0' ' ', "
+                "info {} / None; settings cases with tag '' / name '' and zero / negative / huge / False settings for every class) written by the "
                 "real code into one output directory that is then loaded with add_directory(completed_only in {False,True}) and also written "
                 "through a database session. A settings case is non-trivial when it has keywords or a tag; a scenario when its directory holds "
                 ">= 2 fit / grid-search folders. distinct = distinct abstract input")
@@ -1619,6 +1621,10 @@ def run(ctx):
         "session route: the parent row of a fit with combined analyses is compared; its child fits are out of scope (a session "
         "creates one child named 'analyses/analysis_0' with its own identifier, the scraper one '<id>_<i>' per analyses folder); "
         "path_prefix is not compared (a scraped fit has none)",
+        "identifier on its three sides: for every scripted single fit (unique name and identifier in its scenario, one analysis for the "
+        "session side) the folder name, the id of the database fit loaded from it and the id of the fit written through a session are "
+        "looked up BY NAME and must be equal (oracle); the correspondence (CIdent) compares them with md5 of the model's writer / loader "
+        "token lists, md5 being a finite oracle table over the candidate token lists (search+model tokens alone, + '', + tag)",
         "known-finding classes are attributed per oracle message (pattern of the class and, for per-fit messages, the fit carrying the "
         "label); correspondence disagreements are never attributed to a finding",
         "Emcee/Zeus/Nautilus/UltraNest/DynestyDynamic are covered by the settings round trip only (Emcee's fit raises IndexError in "
@@ -1824,7 +1830,9 @@ MANIFEST = {
             "to exactly their cells with a maximal-likelihood best fit -- Fit.best_fit as written (partial: every cell holds a likelihood and "
             "one is above -inf; refuted outside), the best_fits() query (exactly the cells of highest likelihood) and the repaired Fit.best_fit "
             "(total), for likelihood keys of every sign --; agreement with the session route; a fit interrupted anywhere inside "
-            "save_all leaves the load unchanged), _refuted witnesses for the two "
+            "save_all leaves the load unchanged; the identifier tokens hashed by the writer (folder name, session id) and by the loader "
+            "(SearchOutput.id) are equal for every tag -- absent, empty, non-empty -- and tell the three apart, the truthy-tag rule is "
+            "refuted on '' and partial off it; empty prefix / tag / name add no folder level), _refuted witnesses for the two "
             "defects of the pinned code, plus vm_compute correspondence with real fits written and loaded by the running code and a "
             "direct property oracle on every generated scenario",
     "note": "Identifier tokens and model (de)serialisation are not re-modelled here (C07/C08): the recomputed identifier of a folder is an "
